@@ -14,10 +14,7 @@ EXTRACT = ["C06"]
 BINS = ["c06"]
 NEEDS_CICADA = False
 ALLOWED_AXIOMS = []
-PINNED = ["C06_full", "C06_refuted", "C06_refuted_count_waited", "C06_refuted_stop_cont_parked",
-          "C06_refuted_exit_among_stopped", "C06_refuted_partial_continue", "C06_ids", "C06_remove_pid", "C06_partial_exit_only",
-          "C06_partial_statement",
-          "C06_nonvacuous"]
+PINNED = ["C06_full_statement", "C06_full", "C06_invariant", "C06_ids", "C06_remove_pid", "C06_regressions", "C06_nonvacuous"]
 TRUSTED = [
     "Coq 8.16.1 kernel (coqc; coqchk in thorough); vm_compute only in refutation witnesses / Examples",
     "hand transcription of shell.rs job methods, jobc.rs, signals.rs maps, types.rs Job/WaitStatus and of "
@@ -82,41 +79,6 @@ def ev_status(e):
 def apply_truth(truth, e):
     k, p = e[0], e[1]
     truth[p] = {"x": "D", "k": "D", "s": "S", "c": "R"}[k]
-
-
-def known_classes(h):
-    """The decidable classes of Known_C06 (same definitions as known_* in coq/theories/Proofs/JobsSpec.v),
-    computed from the history alone."""
-    cls = set()
-    multi = set()
-    for o in h:
-        if o[0] == "L":
-            p = o[3]
-            if len(p) >= 2:
-                multi.update(p)
-    # stop / continue of a member of a multi-process job
-    for o in h:
-        evs = o[3] if o[0] == "W" else o[1] if o[0] == "P" else []
-        for e in evs:
-            if e[0] in "sc" and e[1] in multi:
-                cls.add("member_stop")
-    # a stop and a continue of one process with no poll between them
-    ps, pc = set(), set()
-    for o in h:
-        evs = o[3] if o[0] == "W" else o[1] if o[0] == "P" else []
-        fg = o[2] if o[0] == "W" else []
-        for e in evs:
-            if e[1] in fg:
-                continue   # statuses of the waited job itself are applied at once, not parked
-            if e[0] == "s":
-                ps.add(e[1])
-            elif e[0] == "c":
-                pc.add(e[1])
-        if ps & pc:
-            cls.add("stop_cont_parked")
-        if o[0] == "P":
-            ps, pc = set(), set()
-    return cls
 
 
 def oracle(h, snaps):
@@ -223,15 +185,6 @@ def oracle(h, snaps):
                 bad.append((ix, "status_stopped", "job %s shown %s, a live process of it is running" % (j["id"], j["status"])))
         prev_ids = ids
     return bad
-
-
-# which known class explains which oracle failure
-EXPLAINS = {
-    "member_stop": {"wait_early", "wait_late", "wait_status", "status_running", "status_stopped", "pstate"},
-    "stop_cont_parked": {"parked_order", "pstate", "status_running", "status_stopped"},
-}
-# sub-mechanism names used in known_findings.txt for the member_stop class
-SUBCLASS = {"wait_early": "count_waited", "status_running": "exit_among_stopped", "status_stopped": "partial_continue"}
 
 
 # ------------------------------------------------------------------ history generation
@@ -380,7 +333,6 @@ def random_history(rng, max_events, njobs_max):
 def run(ctx, res):
     rng = ctx.rng
     thorough = ctx.thorough
-    known = {k["class"]: k for k in C.known_findings("C06")}
     # ---------------- L1: histories
     hs = []
     if ctx.replay:
@@ -435,76 +387,32 @@ def run(ctx, res):
                 % (max_atoms, cap_per_cfg, nrand, max_events))
     ncorr = 0
     nviol = 0
-    stats = {"in_known_class": 0, "known_reproduced": 0, "known_class_but_oracle_holds": 0, "oracle_ok": 0}
+    stats = {"oracle_ok": 0, "with_stop_or_continue": 0, "multi_process_stop": 0}
     for h, a, b in zip(hs, mo, io):
-        msn = a.split(" | ")
-        last = msn[-1]
+        last = a.split(" | ")[-1]
         if "jobs=[]" not in last or "reap=[] stop=[] cont=[] kill=[]" not in last:
             res.nontrivial(last)
-        cls = known_classes(h)
-        snaps = [parse_snap(x) for x in b.split(" | ")] if b not in ("PANIC", "CRASH", "NOT-RUN", None) else []
+        snaps = [parse_snap(x) for x in b.split(" | ")] if b not in ("PANIC", "CRASH", "NOT-RUN", "HANG", None) else []
         while len(snaps) < len(h):
             snaps.append(None)
         bad = oracle(h, snaps)
-        agree = a == b
         hist_txt = "\t".join(op_txt(o) for o in h)
-        if not cls:
-            if bad:
-                nviol += 1
-                if nviol <= 3:
-                    res.violate(kind="oracle", layer="L1", input=hist_txt, history=[list(o) for o in h],
-                                expected="C06 oracle holds after every operation", observed="; ".join(
-                                    "op %d: %s: %s" % x for x in bad[:4]), model=a, impl=b, failing_input=True,
-                                note="job table / wait result of the implementation contradicts the ground truth")
-            elif not agree:
-                ncorr += 1
-                if ncorr <= 3:
-                    res.violate(kind="correspondence", layer="L1", input=hist_txt, history=[list(o) for o in h], model=a,
-                                impl=b, failing_input=False, note="model and implementation print different snapshots")
-            else:
-                stats["oracle_ok"] += 1
-            continue
-        stats["in_known_class"] += 1
-        if not bad:
-            # the implementation satisfies the oracle on this history; it must still be the modelled behaviour
-            stats["known_class_but_oracle_holds"] += 1
-            if not agree:
-                # the implementation no longer shows the recorded wrong behaviour the model predicts and
-                # satisfies the property on this history: accepted ("finding repaired")
-                stats["repaired_behaviour"] = stats.get("repaired_behaviour", 0) + 1
-            continue
-        # the first failure must be one a recorded mechanism produces; what follows it in the same
-        # history is a consequence of the same wrong state (model and implementation agree on all of it)
-        first_ix = min(i for i, _, _ in bad)
-        kinds = {k for i, k, _ in bad if i == first_ix}
-        explained = all(any(k in EXPLAINS[c] for c in cls) for k in kinds)
-        if agree and explained:
-            stats["known_reproduced"] += 1
-            for c in sorted(cls):
-                if not (kinds & EXPLAINS[c]):
-                    continue
-                names = [c]
-                if c == "member_stop":
-                    names = sorted({SUBCLASS[k] for k in kinds if k in SUBCLASS}) or []
-                for nm in names:
-                    if nm in known:
-                        res.known(nm, "class=%s input=\"%s\" what=%s" % (nm, hist_txt.replace("\t", " "), bad[0][2]))
-                    else:
-                        nviol += 1
-                        if nviol <= 3:
-                            res.violate(kind="oracle", layer="L1", input=hist_txt, history=[list(o) for o in h],
-                                        observed="; ".join("op %d: %s: %s" % x for x in bad[:4]), model=a, impl=b,
-                                        failing_input=True, note="failure of class %s is not recorded in known_findings.txt" % nm)
-        else:
+        if "s" in hist_txt.replace("\t", " ").split(":", 1)[-1] and any(e[0] in "sc" for o in h if o[0] != "L" for e in (o[3] if o[0] == "W" else o[1])):
+            stats["with_stop_or_continue"] += 1
+        if bad:
             nviol += 1
             if nviol <= 3:
                 res.violate(kind="oracle", layer="L1", input=hist_txt, history=[list(o) for o in h],
-                            expected="inside a known class: the recorded (modelled) behaviour or a correct one",
-                            observed="; ".join("op %d: %s: %s" % x for x in bad[:4]), model=a, impl=b, failing_input=True,
-                            note="wrong, but differently from the recorded behaviour of classes %s" % sorted(cls))
-    for c in known:
-        if c not in res.known_hits:
-            res.extra.setdefault("findings_no_longer_reproducing", []).append(c)
+                            expected="C06 oracle holds after every operation", observed="; ".join(
+                                "op %d: %s: %s" % x for x in bad[:4]), model=a, impl=b, failing_input=True,
+                            note="job table / wait result of the implementation contradicts the ground truth")
+        elif a != b:
+            ncorr += 1
+            if ncorr <= 3:
+                res.violate(kind="correspondence", layer="L1", input=hist_txt, history=[list(o) for o in h], model=a,
+                            impl=b, failing_input=False, note="model and implementation print different snapshots")
+        else:
+            stats["oracle_ok"] += 1
     res.extra["l1_stats"] = stats
     for ix in (0, 2, len(hs) // 2):
         res.sample({"layer": "L1", "input": op_txt(hs[ix][0]) + " ...", "history": [op_txt(o) for o in hs[ix]],
